@@ -4,6 +4,7 @@ package kernel
 
 import (
 	"fmt"
+	"strings"
 	"testing"
 
 	"pgregory.net/rapid"
@@ -27,7 +28,7 @@ func TestVP_C21_known_F5(t *testing.T) {
 		return
 	}
 	c := kit.New(t, "C21", "deterministic witness of known finding C21-F5")
-	net := vpKNewNet(7, "c21w", 4)
+	net := vpCWNewNet("c21w")
 	calls, windows, err := vpCWConsWindows(net, vpC21Witness)
 	if err != nil || len(windows) != 1 {
 		t.Fatalf("witness workload: %v %v", err, windows)
@@ -51,36 +52,37 @@ func TestVP_C21_known_F5(t *testing.T) {
 }
 
 func TestVP_C21_consensus_marker(t *testing.T) {
-	c := kit.New(t, "C21", "rapid: the C22 workloads, each containing 1..3 consensus-class snapshots (custodian updates on the elected chain) interleaved with ordinary snapshots of other chains; cuts are drawn at or after the consensus snapshot's write (every boundary in thorough), plain or with another chain finalizing at the boundary first, and crash sequences by continuing after restart; oracle: after restart ReadLastConsensusSnapshot is the latest consensus snapshot whose write returned before the cut, or a later one; the interleaving class of known finding C21-F5 is excluded by construction and counted; non-trivial = cut after a consensus-class snapshot write; distinct by (workload, cut)")
-	c.Require("after-consensus-write", "nested", "cut-WriteConsensusSnapshot", "cut-WriteSnapshot")
-	perWorkload := 8
-	kit.SetChecks(kit.N(8, 72))
+	c := kit.New(t, "C21", "rapid: the C22 workloads, each containing >= 1 consensus-class snapshots (custodian updates, node pledge, node accept as round 0 of the new chain, node removal; all on the chain the kernel's rules assign) interleaved with ordinary snapshots of other chains; cuts are drawn at or after the first consensus snapshot's write (every boundary in thorough; quick aims 7 of 10 cuts per workload at the marker windows [WriteSnapshot..WriteConsensusSnapshot] of the consensus steps), plain or with another chain finalizing at the boundary first, and the workload continues after restart; oracle: after restart ReadLastConsensusSnapshot is the latest consensus snapshot whose write returned before the cut, or a later one; the interleaving class of known finding C21-F5 (nested cuts strictly inside a marker window) and the cuts of known finding C22-F8 (restart impossible) are excluded by construction and counted; non-trivial = cut after a consensus-class snapshot write; distinct by (workload, cut)")
+	c.Require("after-consensus-write", "nested", "cut-WriteConsensusSnapshot", "cut-WriteSnapshot", "after-pledge-write", "after-accept-write", "cut-in-accept-path", "cut-in-pledge-path")
+	perWorkload, aimed := 10, 7
+	kit.SetChecks(kit.N(12, 72))
 	if kit.Thorough() {
 		perWorkload = 0
 	}
-	net := vpKNewNet(7, "c21", 4)
+	net := vpCWNewNet("c21")
 	rapid.Check(t, func(t *rapid.T) {
 		steps := vpCWDraw(t, 7)
 		has := false
 		for _, s := range steps {
-			has = has || s.Kind == "custodian"
+			has = has || vpCWIsCons(s.Kind)
 		}
 		if !has {
 			// make sure a consensus-class step exists: fund + update appended
 			steps = append(steps, vpCWStep{Kind: "deposit", Chain: 1, Asset: 0, Owner: 0, Dt: 1e8}, vpCWStep{Kind: "custodian", Prev: len(steps), Dt: 1e8},
 				vpCWStep{Kind: "deposit", Chain: 2, Asset: 1, Owner: 1, Dt: 1e8})
 		}
-		calls, windows, err := vpCWConsWindows(net, steps)
+		plan, err := vpCWPlanOf(net, steps)
 		if err != nil {
 			t.Fatalf("%v\nworkload %v", err, vpCWDescribe(steps))
 		}
+		calls, windows := plan.Calls, plan.Windows
 		if len(windows) == 0 {
 			t.Skip("no consensus step became executable")
 		}
 		first := windows[0][0]
 		var cuts []*vpCWCut
 		if perWorkload == 0 {
-			for _, cut := range vpCWCuts(t, calls, 0) {
+			for _, cut := range vpCWCuts(t, plan, steps, 0) {
 				if cut.K >= first {
 					cuts = append(cuts, cut)
 				}
@@ -89,9 +91,17 @@ func TestVP_C21_consensus_marker(t *testing.T) {
 			for i := 0; i < perWorkload; i++ {
 				cut := &vpCWCut{K: rapid.IntRange(first, calls).Draw(t, "cut_k"), Phase: rapid.SampledFrom([]string{"before", "after"}).Draw(t, "cut_phase"),
 					DropTmp: rapid.IntRange(0, 3).Draw(t, "drop_cache") == 0}
-				if i < len(windows)*2 { // aim at the marker window of each consensus step
-					w := windows[i%len(windows)]
-					cut.K = rapid.IntRange(w[0], w[1]).Draw(t, "cut_window_k")
+				if i < aimed { // aim at the marker window of a consensus step, membership operations first
+					wi := len(windows) - 1 - i%len(windows)
+					w := windows[wi]
+					lo := w[0]
+					if steps[plan.ConsSteps[wi]].Kind == "accept" && kit.Known("C22-F8") {
+						lo = plan.F8[1] // what lies before the second round start returned is excluded (restart impossible)
+					}
+					cut.K = rapid.IntRange(lo, w[1]).Draw(t, "cut_window_k")
+					if cut.K == lo && lo != w[0] {
+						cut.Phase = "after"
+					}
 				}
 				if cut.Phase == "before" {
 					cut.Nested = rapid.IntRange(0, 1).Draw(t, "nested") == 0
@@ -102,6 +112,10 @@ func TestVP_C21_consensus_marker(t *testing.T) {
 		for _, cut := range cuts {
 			if vpCWInKnownWindow(windows, cut) && kit.Known("C21-F5") {
 				c.Class("excluded-known")
+				continue
+			}
+			if vpCWInF8(plan, cut) && kit.Known("C22-F8") {
+				c.Class("excluded-known-C22-F8")
 				continue
 			}
 			out := vpCWRunCut(net, steps, cut)
@@ -115,13 +129,20 @@ func TestVP_C21_consensus_marker(t *testing.T) {
 			nt := out.Crashed && out.ConsBefore > 0
 			if nt {
 				cl = append(cl, "after-consensus-write")
+				// which kind of consensus snapshot is the latest durable one
+				n := 0
+				for i, st := range steps {
+					if vpCWIsCons(st.Kind) {
+						n++
+						if n == out.ConsBefore {
+							cl = append(cl, "after-"+steps[i].Kind+"-write")
+						}
+					}
+				}
 			}
-			if cut.Nested {
-				cl = append(cl, "nested")
-			}
-			for _, n := range []string{"WriteSnapshot", "WriteConsensusSnapshot"} {
-				if len(out.CrashAt) > len(n) && out.CrashAt[:len(n)+1] == n+"/" {
-					cl = append(cl, "cut-"+n)
+			for _, x := range vpCWClasses(plan, steps, cut, &out) {
+				if x == "nested" || x == "cut-WriteSnapshot" || x == "cut-WriteConsensusSnapshot" || strings.HasPrefix(x, "cut-in-") || x == "snapshot-on-joined-chain" {
+					cl = append(cl, x)
 				}
 			}
 			c.Case(fmt.Sprint(vpCWDescribe(steps), *cut), nt, cl...)
